@@ -5,6 +5,7 @@ from ..r_rings import rule_output_alphabet, rule_tautomer_donor_guard
 from ..r_rules import rule_tables_applicable
 
 from ..r_domains import rule_domains
+from ..r_escape import rule_yield_then_mutate, rule_borrowed_pool
 
 LEVEL = 'other'
 
@@ -17,3 +18,6 @@ def run(ck, repo):
     rule_tautomer_donor_guard(ck, repo, 'C05.D2-tautomer-hydrogen-move')
     rule_tables_applicable(ck, repo, 'C05.D3-repair-rules')
     rule_domains(ck, repo, 'C05.D3-index-domains', only=['__fix_rings'])
+    in_kekule = lambda f: f.module.name == 'chython.algorithms.aromatics.kekule'
+    rule_yield_then_mutate(ck, repo, 'C05.D4-yielded-forms-immutable', in_kekule, floor=3)
+    rule_borrowed_pool(ck, repo, 'C05.D4-pooled-forms-copied', in_kekule, floor=1)
